@@ -146,21 +146,30 @@ AddRatio(I, sn, sd, G, eG, gv, eg) ==
   LET sN == sn * (I.N \div sd) * P2GK
       Dn == sN + gv * SC
       eDn == eg * SC
+      \* the clamp is continuous: where the recorded gradient puts D within its error of a bound, the true D may be on the
+      \* other side of it, which moves G/D by at most R eDn / D
+      near(R, bound) == IF eDn > 0 /\ Abs(Dn - bound) <= eDn + 1 THEN Sat(MulSat(R \div Max2(bound - eDn, 1) + 1, eDn + 1)) ELSE 0
   IN IF Dn <= (sN - 1) \div 10                                      \* s_S + g/N < s_S/10:  D = s_S/10
-       THEN << MulSat(ShlDivSat(G, sn, 12), sd * 10), MulSat(ShlDivSat(eG, sn, 12) + 1, sd * 10) + 1 >>
+       THEN LET R == MulSat(ShlDivSat(G, sn, 12), sd * 10)
+            IN << R, Sat(MulSat(ShlDivSat(eG, sn, 12) + 1, sd * 10)) + near(Sat(R), sN \div 10) + 1 >>
      ELSE IF Dn > 10 * sN                                           \* s_S + g/N > 10 s_S:  D = 10 s_S
-       THEN << MulSat(ShlDivSat(G, sn * 10, 12), sd), MulSat(ShlDivSat(eG, sn * 10, 12) + 1, sd) + 1 >>
+       THEN LET R == MulSat(ShlDivSat(G, sn * 10, 12), sd)
+            IN << R, Sat(MulSat(ShlDivSat(eG, sn * 10, 12) + 1, sd)) + near(Sat(R), 10 * sN) + 1 >>
      ELSE LET R == MulSat(ShlDivSat(G, Dn, 12 + GK), I.N)
           IN << R, Sat(IF Dn > 2 * eDn THEN MulSat(Sat(R) \div (Dn - eDn) + 1, eDn + 1) ELSE Huge)
                    + Sat(MulSat(ShlDivSat(eG, Dn, 12 + GK) + 1, I.N)) + 1 >>
 
 (* multiplicative MAP model: D = s_S * m,  m = 1 + g restricted to [1/10, 10];  M = m * 2^GK *)
 MultRatio(I, sn, sd, G, eG, gv, eg) ==
-  LET M == P2GK + gv IN
+  LET M == P2GK + gv
+      near(R, bound) == IF eg > 0 /\ Abs(M - bound) <= eg + 1 THEN Sat(MulSat(R \div Max2(bound - eg, 1) + 1, eg + 1)) ELSE 0
+  IN
   IF M <= (P2GK - 1) \div 10
-    THEN << MulSat(ShlDivSat(G, sn, 12), sd * 10), MulSat(ShlDivSat(eG, sn, 12) + 1, sd * 10) + 1 >>
+    THEN LET R == MulSat(ShlDivSat(G, sn, 12), sd * 10)
+         IN << R, Sat(MulSat(ShlDivSat(eG, sn, 12) + 1, sd * 10)) + near(Sat(R), P2GK \div 10) + 1 >>
   ELSE IF M > 10 * P2GK
-    THEN << MulSat(ShlDivSat(G, sn * 10, 12), sd), MulSat(ShlDivSat(eG, sn * 10, 12) + 1, sd) + 1 >>
+    THEN LET R == MulSat(ShlDivSat(G, sn * 10, 12), sd)
+         IN << R, Sat(MulSat(ShlDivSat(eG, sn * 10, 12) + 1, sd)) + near(Sat(R), 10 * P2GK) + 1 >>
   ELSE LET R == MulSat(ShlDivSat(G, sn * M, 12 + GK), sd)
        IN << R, Sat(MulSat(Sat(R) \div (M - eg) + 1, eg + 1)) + Sat(MulSat(ShlDivSat(eG, sn * M, 12 + GK) + 1, sd)) + 1 >>
 
